@@ -465,6 +465,72 @@ def gen_text(rng, maxlines=7):
     return text
 
 
+OPENERS, CLOSERS = '([{', ')]}'
+PAIR_FILL = ['a', 'x1', 'é', '日本', 'я', '\U00010400', 'ああ', ' ', ' ', ', ', ' + ', 'f', 'Ωx', '\t', '한']
+
+
+def gen_pair_line(rng, depth=0):
+    """one line with several bracket groups -- mixed kinds, nested -- and multi-byte characters before and between them"""
+    out = ''
+    for _ in range(rng.range(1, 4)):
+        for _ in range(rng.range(0, 3)):
+            out += rng.choice(PAIR_FILL)
+        k = rng.below(3)
+        inner = ''
+        for _ in range(rng.range(0, 2)):
+            inner += rng.choice(PAIR_FILL)
+        if depth < 2 and rng.chance(1, 3):
+            inner += gen_pair_line(rng, depth + 1)
+        out += OPENERS[k] + inner + CLOSERS[k]
+    if rng.chance(1, 2):
+        out += rng.choice(PAIR_FILL)
+    return out
+
+
+def gen_pair_text(rng):
+    """lines of bracket groups; some groups open on a short line and close far to the right of a later, longer line"""
+    ls = []
+    for _ in range(rng.range(1, 4)):
+        t = rng.below(4)
+        if t < 2:
+            ls.append(gen_pair_line(rng))
+        elif t == 2:
+            k = rng.below(3)
+            ls.append(rng.choice(['f', 'é', '', 'if ', '日']) + OPENERS[k])
+            for _ in range(rng.range(0, 2)):
+                ls.append(rng.choice(['', '  x', '\ta, b', gen_pair_line(rng)]))
+            ls.append(rng.choice(['    a, b', '\t\t日本 + ', '      ', gen_pair_line(rng) + '  ']) + CLOSERS[k] + rng.choice(['', ';', ' é']))
+        else:
+            ls.append(rng.choice(['', ' ', 'éé', ')', '(']))
+    return '\n'.join(ls) + '\n'
+
+
+def gen_pair_prog(rng, text):
+    """% from every kind of place: before the first bracket of a line, on a bracket, after f/t/F/T to a bracket, repeated"""
+    ls = lines_of(text)
+    prog = []
+    for _ in range(rng.range(1, 3)):
+        r = rng.below(len(ls)) if ls else 0
+        prog.append(['g', r + 1])
+        n = len(ls[r]) if ls else 0
+        t = rng.below(4)
+        if n and t == 0:
+            prog.append(['m', rng.range(1, n), ' '])
+        elif n and t == 1:
+            br = [i for i, ch in enumerate(ls[r]) if ch in OPENERS + CLOSERS]
+            if br:
+                o = rng.choice(br)
+                if o:
+                    prog.append(['m', o, ' '])
+        elif n and t == 2:
+            prog.append(['m', rng.choice([0, 0, 1, 2]), rng.choice('ftFT'), rng.choice(OPENERS + CLOSERS)])
+        for _ in range(rng.range(1, 3)):
+            prog.append(['m', 0, '%'])
+            if rng.chance(1, 3):
+                prog.append(gen_motion(rng, text))
+    return prog
+
+
 def gen_count(rng):
     t = rng.below(10)
     if t < 4:
@@ -527,6 +593,7 @@ def gen_prog(rng, text):
 FIXED_TEXTS = [
     'foo.bar  (a[1]) {x}\n\n  \tindentéd w中文 énd  \n\n\nlast_1 )\n',
     '\tab\tc((d))\n \nああ Ａb\n',
+    'éé (a) [b]{c}\n日本 f(x) + g(y)\n',
     'a\n',
     '\n',
     '\n\n',
@@ -590,7 +657,7 @@ def run(ctx):
             for c in json.load(open(fn)):
                 cases.append({'text': c['text'], 'rows': c['rows'], 'prog': c['prog'], 'corpus': os.path.basename(fn)})
         # every start position of small buffers x every motion key
-        nfixed = 2 if ctx.quick else len(FIXED_TEXTS)
+        nfixed = 3 if ctx.quick else len(FIXED_TEXTS)
         for ti, text in enumerate(FIXED_TEXTS):
             for (r, o) in all_positions(text):
                 for key in KEYS0:
@@ -606,8 +673,13 @@ def run(ctx):
                         cases.append({'text': text, 'rows': rows, 'prog': prog})
         n = 1500 if ctx.quick else 60000
         for i in range(n):
-            text = gen_text(rng, 7 if rng.chance(4, 5) else 14)
-            cases.append({'text': text, 'rows': rng.choice([24, 24, 6, 5, 4, 3]), 'prog': gen_prog(rng, text)})
+            if rng.chance(3, 20):
+                text = gen_pair_text(rng)
+                prog = gen_pair_prog(rng, text) if rng.chance(2, 3) else gen_prog(rng, text)
+            else:
+                text = gen_text(rng, 7 if rng.chance(4, 5) else 14)
+                prog = gen_prog(rng, text)
+            cases.append({'text': text, 'rows': rng.choice([24, 24, 6, 5, 4, 3]), 'prog': prog})
     res.count('cases', len(cases))
 
     obs = vlib.pmap(lambda c: check_case(exe, c, res), cases)
